@@ -8,8 +8,9 @@ CHECKS = {
         text=("Cli.tla: process outcome machine without a Panic action, with the statistic x shape admissibility table and the "
               "scenario classes (options beyond bounds, degenerate shapes, absurd inputs, contradictory sample lists, field-level "
               "file damage) enumerated by TLC; every scenario is run on the real binary and classified Exit0 / ExitErr+diagnostic "
-              "/ panic."),
-        design_ref="DESIGN.md section 3 (C17) and section 5",
+              "/ panic. CliArgs.tla adds the command-line grammar (option tables, exclusive groups, once-only options, "
+              "malformed tokens) and the input-resolution rule; every command line in the bound is run (stdin as terminal via a pty)."),
+        design_ref="DESIGN.md section 3 (C17), section 5 and section 9.7",
         note=("The grids are exhaustive in the bound (model-checked case table). Mutated inputs are exploration: TLC enumerates "
               "damage classes, the bytes are seeded random (3 seeds quick, 25 thorough). Trusted: TLC, harness concretisation."),
         technique="TLA+ outcome machine and admissibility table, TLC enumeration of scenario classes, execution on the binary",
@@ -51,7 +52,8 @@ CHECKS = {
         category="model_checking",
         text=("View.tla: the four view operators as once-only actions enabled in the documented order over symbolic spectra; TLC "
               "checks the final state equals the documented pipeline, mask exactness and normalization; every option selection is "
-              "run combined and chained on the real binary and compared bit for bit and with the exact expectation."),
+              "run combined and chained on the real binary and compared bit for bit and with the exact expectation; the result is "
+              "read back from the destination the model drew (stdout, fresh, stale or in-place file)."),
         design_ref="DESIGN.md section 3 (C13)",
         note=("Exhaustive over option selections for shapes in the bound (quick: 1-3 axes lengths 2-3; thorough: 1-4 axes lengths "
               "1-3 and 1-2 axes lengths 2-5). Trusted: TLC, Q.class, harness npy/text parsers."),
@@ -62,7 +64,8 @@ CHECKS = {
         text=("Transport.tla: the consumers' I/O logic (npy reader loop, create-input detection + decoding, writer) against an "
               "environment that owns chunk schedule and failure offset; TLC checks schedule-independence and that failures "
               "surface, on models carrying the real file lengths (small files and files larger than every internal buffer); every schedule is replayed with scheduled readers/writers on "
-              "Array::read_npy, the genotype reader (hook) and the spectrum writer."),
+              "Array::read_npy, the genotype reader (hook) and the spectrum writer, and the writer inside the real process "
+              "(stdout / -o PATH) against a sink that fails at the scheduled byte offset."),
         design_ref="DESIGN.md section 3 (C18)",
         note=("First-chunk length exhaustive per file (quick: up to 120), later chunks in {1,2,7,64,rest}, failure at every offset "
               "for three schedules. Needs hook build_from_bufread (cfg sfs_verif). Trusted: TLC, SchedReader/SchedWriter."),
@@ -174,7 +177,8 @@ CHECKS = {
         category="model_checking",
         text=("ArrayApi.tla models indexing, axis views and the three iterators as state machines; TLC checks "
               "bijection/row-major order, view partition, 'each item once then None forever' and exact len() on "
-              "every call history in the bound, and every behaviour is replayed call by call on sfs_core::array."),
+              "every call history in the bound (next() and nth(n) calls, arrays with zero-length axes included), and every "
+              "behaviour is replayed call by call on sfs_core::array."),
         design_ref="DESIGN.md section 3 (C19)",
         note=("Exhaustive inside the bound (quick: 1-4 axes, lengths 1-3; thorough: 1-5 axes lengths 1-3, 1-3 axes "
               "lengths 1-5, 4/5-axis catalogue). Trusted: TLC, CommunityModules Json, harness comparison code."),
